@@ -117,6 +117,7 @@ func Leaves(level int) []Leaf {
 		"required": A{"s", "n", "a", "o"}}, nil, true)
 	add("object-empty", "map", J{"type": "object"}, nil, true)
 	add("map-str", "map", J{"type": "object", "additionalProperties": J{"type": "string"}}, nil, true)
+	add("map-int-required", "map", J{"type": "object", "additionalProperties": J{"type": "integer"}, "required": A{"k1"}}, nil, true)
 	add("map-obj", "map", J{"type": "object", "additionalProperties": J{"type": "object", "properties": J{"k": J{"type": "integer"}}}}, nil, true)
 	add("object-addl-typed", "object", J{"type": "object", "properties": J{"k": J{"type": "string"}}, "additionalProperties": J{"type": "integer"}}, nil, true)
 	add("object-addl-num", "object", J{"type": "object", "properties": J{"k": J{"type": "string"}}, "additionalProperties": J{"type": "number"}}, nil, true)
